@@ -208,6 +208,27 @@ class ExprMixin:
             if items is not None:
                 kind = "set" if isinstance(val, ast.Set) else "seq"
                 return Sym(kind, Q.Literal(st, items), Spec(kind, Spec("prim")))
+        if isinstance(val, ast.Dict) and val.keys and all(k is not None and isinstance(k, (ast.Attribute, ast.Constant)) for k in val.keys) \
+                and all(isinstance(v, (ast.Set, ast.Tuple, ast.List, ast.Attribute, ast.Constant)) for v in val.values):
+            # table keyed by enum members / constants (e.g. KIND_TO_ALLOWED_PREVIOUS): evaluated in the defining module
+            saved_mod, saved_env = self.module, st.env
+            self.module, st.env = module, {}
+            try:
+                d = Sym("dict", None, Spec("dict", (VAL, VAL)), DictPayload(Q.Empty(), z3.K(V, NONE)))
+                for k, v in zip(val.keys, val.values):
+                    if isinstance(v, (ast.Set, ast.Tuple, ast.List)):
+                        items = [box(self.eval(e, st), st) for e in v.elts]
+                        kind = "set" if isinstance(v, ast.Set) else "seq"
+                        vs = Sym(kind, Q.Literal(st, items), Spec(kind, Spec("prim")))
+                    else:
+                        vs = self.eval(v, st)
+                    d = self.dict_set(d, self.eval(k, st), vs, st)
+                spec_v = Spec("set", Spec("prim")) if all(isinstance(v, ast.Set) for v in val.values) else VAL
+                return Sym("dict", None, Spec("dict", (VAL, spec_v)), DictPayload(d.py.keys, d.py.vals, VAL, spec_v))
+            except Unsupported:
+                pass
+            finally:
+                self.module, st.env = saved_mod, saved_env
         if isinstance(val, (ast.Set, ast.Tuple, ast.List)) and all(isinstance(e, ast.Constant) for e in val.elts):
             items = [box(self.e_Constant(e, st), st) for e in val.elts]
             kind = "set" if isinstance(val, ast.Set) else "seq"
@@ -383,6 +404,15 @@ class ExprMixin:
         if isinstance(op, ast.Mod):
             if a.kind == "val":
                 return S_val(uf("percent_format", V, V, V)(a.t, box(b, st)), Spec("str"))
+        if isinstance(op, (ast.BitAnd, ast.BitOr)) and (a.kind == "set" or b.kind == "set") and a.kind in ("set", "val") and b.kind in ("set", "val"):
+            sa, sb = self.coerce(a, Spec("set", VAL), st), self.coerce(b, Spec("set", VAL), st)
+            if isinstance(op, ast.BitOr):
+                return self.set_union(sa, sb, st)
+            r = self.fresh_term(st, "setinter", SeqV)
+            x = fresh("sx", V)
+            st.assume(z3.ForAll([x], seq_contains(r, x) == z3.And(seq_contains(as_seq(sa, st), x), seq_contains(as_seq(sb, st), x))))
+            self._assume_distinct(st, r)
+            return Sym("set", r, sa.spec)
         if isinstance(op, ast.BitOr) and a.kind == "val" and b.kind == "val":
             return S_val(uf("bitor", V, V, V)(a.t, b.t))
         if a.kind == "val" and b.kind == "val":
